@@ -4,11 +4,11 @@ package main
 
 import (
 	"encoding/json"
-	"time"
 	"fmt"
 	"regexp"
 	"sort"
 	"strings"
+	"time"
 
 	"github.com/hedzr/is"
 	"github.com/hedzr/logg/slog"
@@ -35,9 +35,9 @@ func nameCode(s string) int64 {
 		var n int64
 		fmt.Sscanf(skipNameRe.FindStringSubmatch(s)[1], "%d", &n)
 		return -2 - n
-	case strings.HasPrefix(s, "n") && len(s) <= 3:
+	case strings.HasPrefix(s, "n"):
 		var k int64
-		if _, err := fmt.Sscanf(s, "n%d", &k); err == nil {
+		if _, err := fmt.Sscanf(s, "n%d", &k); err == nil && treeName(int(k)) == s {
 			return k
 		}
 	}
@@ -135,7 +135,7 @@ func c10One(r *Run, snap *slog.VerifRegistry, ops []Op, kind string) {
 		case "ONew":
 			name := ""
 			if o.Name != nil && *o.Name != 0 {
-				name = fmt.Sprintf("n%d", *o.Name)
+				name = treeName(*o.Name)
 			}
 			if ex, ok := children[o.P][name]; ok && name != "" {
 				if ret != ex || created {
